@@ -17,7 +17,7 @@
 From Coq Require Import List NArith Bool Arith String Lia.
 From Snow Require Import Lib.Wire Model.Base64 Model.Armor Model.ArmorStream.
 From Snow Require Import Proofs.Base64Proofs Proofs.ArmorEncProofs Proofs.ArmorDecProofs Proofs.ArmorMarkupProofs.
-From Snow Require Import Proofs.ArmorStreamProofs Proofs.ArmorBufProofs Proofs.ArmorStreamInst.
+From Snow Require Import Proofs.ArmorStreamProofs Proofs.ArmorBufProofs Proofs.ArmorStreamInst Proofs.ArmorTailProofs.
 Import ListNotations.
 Open Scope N_scope.
 
@@ -135,6 +135,32 @@ Theorem C10_goroutine_released :
   s_end (stream_decode T tinit tfeed tfin chunks sz fuel) <> None ->
   p_stuck T tfeed tfin (s_prod (stream_decode T tinit tfeed tfin chunks sz fuel)) = false.
 Proof. exact stream_decode_released. Qed.
+
+(* no hang on what FOLLOWS: the decoder never looks at source it has not asked for.  For any tokenizer, any
+   source chunks, any caller buffers: if the caller's Reads reach their end (io.EOF or an error) while the
+   producer has not met the end of [chunks] ([p_fin] = false: no source Read has returned io.EOF), then with ANY
+   continuation [tl] of the source - as long as one likes, never ending, or never delivered at all - the same
+   Reads return the same bytes and the same end, the number of source bytes consumed is the same, and [tl] is
+   still unread.  So an error met early in a document is returned after a consumption that does not depend on
+   the rest of the document (a decoder that drains the rest before returning the error does not have this
+   property; nor does one whose result needs the end of the document). *)
+Theorem C10_unread_tail_irrelevant :
+  forall (T : Type) (tinit : T) (tfeed : T -> N -> T * list tok) (tfin : T -> list tok) chunks tl sz fuel,
+  let r := stream_decode T tinit tfeed tfin chunks sz fuel in
+  p_fin (s_prod r) = false ->
+  let r' := stream_decode T tinit tfeed tfin (chunks ++ tl) sz fuel in
+  s_data r' = s_data r /\ s_end r' = s_end r /\
+  p_consumed (s_prod r') = p_consumed (s_prod r) /\ p_src (s_prod r') = p_src (s_prod r) ++ tl.
+Proof. exact stream_decode_tail_full. Qed.
+
+(* instance and non-vacuity: bad base64 in the first element ("QU*D" in [tail_doc] =
+   "<html><pre>0QUJD QU*D QUJD</pre>"), met by the second Read; the source chunk holding it is all that is ever
+   consumed, whatever the list [tl] of further source Reads holds; the goroutine is released *)
+Theorem C10_early_error_whatever_follows : forall tl,
+  let r' := armor_stream_decode ([tail_doc] ++ tl) (fun _ => 16%nat) 40 in
+  s_data r' = bs "ABC" /\ s_end r' = Some (RErr EBadBase64) /\
+  p_consumed (s_prod r') = N.of_nat (List.length tail_doc) /\ p_src (s_prod r') = tl /\ sp_stuck (s_prod r') = false.
+Proof. exact early_error_whatever_follows. Qed.
 
 (* the code before /repo commit 0dac441 ([dec_read0]: no close of the pipe when base64 fails) did not
    have this property: same answer to the caller, goroutine blocked for ever *)
